@@ -14,6 +14,7 @@ from ..cfg import F, op_base, op_local, place_fields
 from ..gates import (call_result_edges, guarded, unguarded_path, param_flag_edges, enum_variant_edges,
                      compare_seeds, test_edges)
 from ..prov import origins, operand_origins
+from ..dep import deps
 
 CRATES = ['trust_runtime']
 NODEFAULT_OK = True
@@ -224,6 +225,48 @@ def run(ctx):
             r3.ok('resolver-containment', loc=fn.loc(sw[0][0]), detail='parent test strict%s' % ('; leaf test with not-exists bypass' if leaf_ok2 else ''))
         else:
             r3.bad('resolver-containment', 'resolve_workspace_path can return Ok without passing the starts_with(canonical_root) test (%s)' % ('parent' if not parent_ok else 'leaf'), loc=fn.loc(sw[0][0]))
+
+    # the walk to the closest existing ancestor gives up (and falls back to the root, which passes the containment test
+    # trivially) only when the chain of parents is exhausted: the end-of-walk test depends on Path::parent / ancestors
+    # alone - not on a counter, a constant bound or a truncating adaptor
+    cep = fx.fns.get(M + 'closest_existing_parent')
+    r3.saw()
+    if cep is None:
+        r3.bad('anchor-missing|closest_existing_parent', 'closest_existing_parent not found')
+    else:
+        cf = F(cep)
+        loops = [set(c) for c in cf.sccs() if len(c) > 1]
+        probes = [b for b, nm, t in cf.calls(lambda n: re.search(r'Path::(exists|try_exists|symlink_metadata|metadata)$', n) is not None)]
+        trunc = [(b, nm) for b, nm, t in cf.calls(lambda n: re.search(r'Iterator::(take|take_while|step_by|skip|skip_while|nth|map_while)$|::Take<|::TakeWhile<|::StepBy<', n) is not None)]
+        badw = None
+        if not loops or not probes:
+            badw = (0, 'no loop over the ancestors with an existence probe was found (shape not recognised)')
+        elif trunc:
+            badw = (trunc[0][0], 'the ancestor walk is truncated by %s' % trunc[0][1].split('::')[-1])
+        else:
+            lp = next((c for c in loops if any(p_ in c for p_ in probes)), loops[0])
+            for b in lp:
+                t = cf.term(b)
+                if t['k'] != 'switch':
+                    continue
+                exits = [x for x in cf.g.get(b, ()) if x not in lp]
+                if not exits:
+                    continue
+                l = op_local(t['d'])
+                if l is None:
+                    continue
+                d = deps(cf, ['c', [l, []]])
+                cn = {c[1] for c in d.calls}
+                if any(re.search(r'Path::(exists|try_exists)$', n) for n in cn) and not any(re.search(r'Path::parent$|Ancestors.*::next$', n) for n in cn):
+                    continue        # the "found an existing ancestor" exit
+                ints = [k for k in d.consts if re.search(r'_(usize|u8|u16|u32|u64|i32|i64)$', k) and not re.match(r'(const )?[01]_', k)]
+                foreign = [n for n in cn if not re.search(r'Path::(parent|ancestors|exists|try_exists)$|Ancestors.*::next$|IntoIterator>::into_iter$|Option<.*>::(into_iter|map|and_then)$|Deref>::deref$|PathBuf::as_path$|AsRef<.*>>::as_ref$', n)]
+                if ints or foreign:
+                    badw = (b, 'the walk can end on a condition other than "no parent left" (%s)' % ', '.join([x.split('::')[-1] for x in foreign[:2]] + ints[:2]))
+        if badw:
+            r3.bad('ancestor-walk-exhaustive', 'closest_existing_parent: %s: a path whose nearest existing ancestor lies beyond the bound falls back to the project root and passes the containment test although that ancestor (a symlink out of the project, say) was never canonicalised' % badw[1], loc=cf.loc(badw[0]))
+        else:
+            r3.ok('ancestor-walk-exhaustive', loc=cf.loc(probes[0]))
 
     # ------------------------------------------------------------------ R4 normaliser / hidden entries
     r4 = ctx.rule('C19.R4', 'normaliser rejects hidden, parent, root and prefix components; every resolver call is fed by a normaliser; collectors skip dot-names', floor=8)
@@ -445,3 +488,38 @@ def rule_prefix_boundary(ctx, r5):
                 r5.bad(key, 'a string-prefix test on workspace paths uses the bare directory name as prefix (no trailing "/"): the directory `lib` also matches `lib2/main.st` and `library.st`, whose tracked version is dropped although the files stay, so a stale writer is accepted afterwards', loc=fn.loc(b))
     if n == 0:
         r5.note('no string-prefix tests in delete_entry / rename_entry (component-wise or exact matching)')
+
+
+    # ------------------------------------------------------------------ R6 session expiry
+    # expiry is enforced by prune_expired only (ensure_session does not compare expires_at itself): every keyed lookup in
+    # the session map, and every refresh of a session's expiry, must come after it in the same function
+    r6 = ctx.rule('C19.R6', 'an expired session is never looked up or refreshed: keyed access to the session map and writes of expires_at are dominated by prune_expired (or a comparison of expires_at)', floor=1, floor_what='session lookups')
+    for k in sorted(fx.fns):
+        if not k.startswith(M) or '::tests::' in k or k == M + 'prune_expired':
+            continue
+        fn = F(fx.fns[k])
+        sites = []
+        for b, nm, t in fn.calls(lambda n: re.search(r'Map::<.*>::(get|get_mut|contains_key|get_key_value|entry|get_full|get_index_of)$|Index<.*>>::index$|IndexMut<.*>>::index_mut$', n) is not None):
+            ga = ' '.join(t['f'].get('ga') or [])
+            if 'IdeSessionEntry' in ga or 'IdeSessionEntry' in nm:
+                sites.append((b, 'lookup'))
+        for b in fn.g:
+            if fn.assigns_field(b, lambda f: f.endswith('IdeSessionEntry.expires_at')):
+                sites.append((b, 'refresh'))
+        if not sites:
+            continue
+        pr = fn.blocks_calling(lambda n: n == M + 'prune_expired')
+        cmpb = []
+        for b in fn.g:
+            for st in fn.bbs[b]['s']:
+                if st[0] == 'A' and st[2][0] == 'bin' and st[2][1] in ('Le', 'Lt', 'Ge', 'Gt'):
+                    if any(f.endswith('IdeSessionEntry.expires_at') for o in (st[2][2], st[2][3]) if o[0] in ('c', 'm') for f in place_fields(o[1])):
+                        cmpb.append(b)
+        short = k[len(M):]
+        for b, what in sites:
+            r6.saw()
+            key = '%s|%s' % (what, short)
+            if any(fn.dominates(p_, b) or p_ == b for p_ in pr + cmpb):
+                r6.ok(key, loc=fn.loc(b))
+            else:
+                r6.bad(key, '%s: a session is %s without expiry having been enforced first (no prune_expired before it): a session whose TTL has run out is still found and kept alive, and its token keeps authorising writes' % (short, 'looked up by token' if what == 'lookup' else 'refreshed'), loc=fn.loc(b))
